@@ -13,6 +13,7 @@ use std::panic::{catch_unwind, AssertUnwindSafe};
 pub fn monitors_for(prop: &str) -> Vec<Box<dyn Monitor>> {
     let mut v = own_monitors_for(prop);
     let to: Option<&'static str> = match prop {
+        "C03" => Some("C03"),
         "C05" => Some("C05"),
         "C06" => Some("C06"),
         "C07" => Some("C07"),
